@@ -478,15 +478,64 @@ def build_reestablish(rng):
     return pr, states
 
 
+def build_contingent_oneof(rng):
+    """crafted family (contingent input): `oneof` / `or` groups with NEGATIVE literals and mixed polarities over the hidden atoms, optionally two
+    groups and a free `unknown` atom; the plan has to treat the legal states by cases (one conditional effect per legal combination), so it exists
+    for the states the constraints allow and not for a superset"""
+    pr = ContingentProblem("oneofneg")
+    names = ["a", "b", "c", "g", "h"]
+    fl = {n: Fluent(n, BoolType()) for n in names}
+    for f in fl.values():
+        pr.add_fluent(f, default_initial_value=False)
+
+    def lit(n, positive):
+        return fl[n]() if positive else Not(fl[n]())
+    pol = {n: rng.random() < 0.5 for n in "abc"}
+    if all(pol.values()):
+        pol[rng.choice("ab")] = False          # at least one negative literal
+    cons = []
+    group = ["a", "b"] + (["c"] if rng.random() < 0.4 else [])
+    kind = "oneof" if rng.random() < 0.75 else "or"
+    (pr.add_oneof_initial_constraint if kind == "oneof" else pr.add_or_initial_constraint)([lit(n, pol[n]) for n in group])
+    cons.append((kind, [((fl[n], ()), pol[n]) for n in group]))
+    hidden = {(fl[n], ()) for n in group}
+    if "c" not in group and rng.random() < 0.5:
+        pr.add_unknown_initial_constraint(fl["c"]())
+        hidden.add((fl["c"], ()))
+    keys = all_keys(pr)
+    base = {key: False for key in keys}
+    hid = sorted(hidden, key=str)
+    states = []
+    for bits in itertools.product([False, True], repeat=len(hid)):
+        st_ = dict(base)
+        st_.update(zip(hid, bits))
+        if all((sum(1 for (key, pos) in lits_ if st_[key] == pos) == 1) if k_ == "oneof" else (sum(1 for (key, pos) in lits_ if st_[key] == pos) >= 1)
+               for k_, lits_ in cons):
+            states.append(st_)
+    # one action per legal state: when exactly that combination of the hidden atoms holds, g becomes true
+    for i, st_ in enumerate(states[:4]):
+        act = InstantaneousAction(f"case{i}")
+        cond = And([lit(key[0].name, st_[key]) for key in hid])
+        act.add_effect(fl["g"](), True, cond)
+        pr.add_action(act)
+    mark = InstantaneousAction("mark")
+    mark.add_effect(fl["h"](), True)
+    pr.add_action(mark)
+    pr.add_goal(fl["g"]())
+    if rng.random() < 0.5:
+        pr.add_goal(fl["h"]())
+    return pr, states
+
+
 def scenario(seed, failures, stats, chain=False):
     rng = random.Random(seed)
     contingent = rng.random() < 0.35 and not chain
     if chain:
-        pr, chain_states = build_reestablish(rng) if chain == "reestablish" else build_chain(rng)
+        pr, chain_states = {"reestablish": build_reestablish, "oneof": build_contingent_oneof}.get(chain, build_chain)(rng)
         objs = fl = None
     else:
         pr, objs, fl = build(rng, contingent)
-    label = {"seed": seed, "input": ("crafted reestablish" if chain == "reestablish" else "crafted chain") if chain else ("contingent" if contingent else "explicit states")}
+    label = {"seed": seed, "input": ({"reestablish": "crafted reestablish", "oneof": "crafted contingent oneof"}.get(chain, "crafted chain")) if chain else ("contingent" if contingent else "explicit states")}
 
     def bad(what, observed=None):
         if what not in {f["what"] for f in failures}:
@@ -494,6 +543,9 @@ def scenario(seed, failures, stats, chain=False):
     if contingent:
         states = add_constraints(pr, objs, fl, rng)
         comp = Ks0Compiler()
+    elif chain == "oneof":
+        states = chain_states
+        comp = Ks0Compiler()              # the compiler derives the states from the constraints itself
     elif chain:
         states = chain_states
         comp = Ks0Compiler(possible_initial_states=[to_upstate(pr, s) for s in states])
@@ -581,12 +633,16 @@ def bounded(tier, seed):
             scenario(seed * 100003 + 70000 + i, failures, stats, chain="reestablish")
             if len(failures) >= 8:
                 break
+        for i in range(n // 2):
+            scenario(seed * 100003 + 90000 + i, failures, stats, chain="oneof")
+            if len(failures) >= 8:
+                break
     return {"evaluations": stats["n"], "distinct_nontrivial": len(stats["distinct"]), "failures": failures[:8],
             "rule": f"{n} generated Boolean conformant problems (4 ground fluents, 2-3 actions, conditional/forall effects, negative/disjunctive/quantified "
                     f"conditions, 1-4 possible initial states incl. dominated ones; 35% contingent input); per problem: BFS of the compiled state space "
                     f"(<= {CAP} states, <= 6 goal paths) + exhaustive belief-space BFS; plus {n // 2} crafted chain problems (relevance through mixed effect / "
                     f"complement edges, two states differing at the far end) and {n // 2} crafted re-establish problems (a literal true in every possible state, deleted, "
-                    f"restored by cases, needed again); run-time contracts on the real _get_relevance_relation (reflexive, effect edges, "
+                    f"restored by cases, needed again) and {n // 2} crafted contingent problems whose oneof / or groups hold negative literals (plans by cases over the legal states); run-time contracts on the real _get_relevance_relation (reflexive, effect edges, "
                     f"transitively and complement closed) and _reduce_possible_initial_states_to_basis (every dropped state is dominated per target) in "
                     f"{stats.get('kernel_calls', 0)} kernel calls; undecided (cap) {stats['capped']}, unsupported {stats['unsupported']}",
             "samples": [{"capped": stats["capped"], "unsupported": stats["unsupported"], "ambiguous": stats["ambiguous"], "rejected_by_compile": stats.get("rejected", 0)}], "bound": f"{n} problems"}
@@ -597,7 +653,7 @@ def replay_file(data):
     failures, stats = [], {"n": 0, "distinct": set(), "unsupported": 0, "capped": 0, "ambiguous": 0}
     with warnings.catch_warnings():
         warnings.simplefilter("ignore")
-        scenario(c.get("seed", 0), failures, stats, chain={"crafted chain": True, "crafted reestablish": "reestablish"}.get(c.get("input"), False))
+        scenario(c.get("seed", 0), failures, stats, chain={"crafted chain": True, "crafted reestablish": "reestablish", "crafted contingent oneof": "oneof"}.get(c.get("input"), False))
     return {"reproduced": bool(failures), "concrete": c, "observed": [f["what"] for f in failures][:4]}
 
 
